@@ -662,6 +662,7 @@ func runFree(c *core.Case) {
 	case <-wdone:
 	case <-time.After(120 * time.Second):
 		c.Inconclusive("writers did not finish within 120 s")
+		closed = true // the writers still own the WL (one may be re-opening it): leave it to them
 		return
 	}
 	select {
@@ -752,6 +753,9 @@ func shadowTail(c *core.Case, r *rand.Rand, dir string, p *plan) {
 			}
 			if justDelivered && r.IntN(4) != 0 {
 				n = 1 + r.IntN(6) // stop inside the next fragment header
+				if r.IntN(2) == 0 {
+					n = 1 + r.IntN(2) // ... before its length field is complete
+				}
 			}
 			if off+n > len(src) {
 				n = len(src) - off
